@@ -643,7 +643,7 @@ func selectItems(a arena.Arena, items []*astjson.Value, element FetchItemPathEle
 			return nil
 		}
 		if field.Type() == astjson.TypeArray {
-			return field.GetArray()
+			return appendFlattened(a, arena.AllocateSlice[*astjson.Value](a, 0, len(field.GetArray())), field)
 		}
 		return []*astjson.Value{field}
 	}
@@ -657,12 +657,24 @@ func selectItems(a arena.Arena, items []*astjson.Value, element FetchItemPathEle
 			continue
 		}
 		if field.Type() == astjson.TypeArray {
-			selected = arena.SliceAppend(a, selected, field.GetArray()...)
+			selected = appendFlattened(a, selected, field)
 			continue
 		}
 		selected = arena.SliceAppend(a, selected, field)
 	}
 	return selected
+}
+
+// appendFlattened appends the elements of list to dst, descending into nested lists (a field of type [[T]]).
+func appendFlattened(a arena.Arena, dst []*astjson.Value, list *astjson.Value) []*astjson.Value {
+	for _, item := range list.GetArray() {
+		if item != nil && item.Type() == astjson.TypeArray {
+			dst = appendFlattened(a, dst, item)
+			continue
+		}
+		dst = arena.SliceAppend(a, dst, item)
+	}
+	return dst
 }
 
 func (l *Loader) itemsData(items []*astjson.Value) *astjson.Value {
